@@ -48,7 +48,7 @@ def gen_cases(tier, seed):
         dev = zoo.gen_device(rng, n_terminals=nt, n_holes=int(nt == 0 and k % 2), probes=2 if nt else 0, size="tiny")
         o = S.base_options(rng, adaptive=bool(k % 2), steps=30, screening=(k % 7 == 6))
         if not o["adaptive"]:
-            o.update(dt_init=2e-3, solve_time=0.06)
+            o["auto_dt"] = {"steps": 30, "frac": 0.3}
         o["save_every"] = int([1, 5, 10][k % 3])
         # Optional / defaulted fields: None-valued and set
         o["terminal_psi"] = ["none", 0.0, 0.5, [0.3, 0.4], "none"][k % 5]
@@ -164,7 +164,7 @@ def short_solve_hashes(dev, seed):
     from ..recorder import Recorder
 
     tm = simmon.TraceMonitor()
-    opts = tdgl.SolverOptions(solve_time=0.1, dt_init=0.005, adaptive=False, save_every=5, progress_interval=10**9)
+    opts = tdgl.SolverOptions(solve_time=0.1, dt_init=0.001, dt_max=0.01, adaptive=True, save_every=5, progress_interval=10**9)
     names = [t.name for t in dev.terminals]
     tc = None
     if len(names) >= 2:
@@ -429,7 +429,7 @@ def case_parameter(spec):
     cx = Ctx()
     rng = np.random.default_rng(spec["seed"])
     dev = zoo.build_device(zoo.gen_device(rng, n_terminals=0, probes=0, size="tiny", smooth=0, film_kind="box", gamma=1.0))
-    opts = tdgl.SolverOptions(solve_time=0.02, dt_init=0.005, adaptive=False, save_every=2, progress_interval=10**9)
+    opts = tdgl.SolverOptions(solve_time=0.02, dt_init=0.001, dt_max=0.005, adaptive=True, save_every=2, progress_interval=10**9)
     base = tdgl.solve(dev, opts, applied_vector_potential=0.05)  # a real solution to carry the parameters
     tmp = tempfile.mkdtemp(prefix="vt_c14p_")
     try:
